@@ -159,9 +159,19 @@ class Weaver:
                     raise ex.ExtractError('R6: no derive list on %s' % name)
                 attrs = attrs.replace('#[derive(', '#[derive(%s, ' % o[8:], 1)
                 log.append('R6')
+        post = ''
+        if 'clone=assumed' in opts:
+            # A-derive: `#[derive(Clone)]` is a structural copy.  The derive is replaced by an
+            # external_body impl carrying that contract (ASSUMED, listed in the evidence).
+            if not re.search(r'#\[derive\([^)]*\bClone\b', attrs):
+                raise ex.ExtractError('clone=assumed: %s does not derive Clone' % name)
+            attrs = re.sub(r'(#\[derive\([^)]*?)\bClone\b\s*,?\s*', r'\1', attrs, count=1)
+            post = ('\nimpl Clone for %s {\n    #[verifier::external_body]\n    fn clone(&self) -> (r: Self)\n'
+                    '        ensures r == *self,\n    { unimplemented!() }\n}\n') % name
+            log.append('A-derive-clone')
         self.item_records.append({'file': rel, 'kind': kind, 'name': (owner + '::' if owner else '') + name,
                                   'sha256': it.sha(), 'rules': sorted(set(log))})
-        return (attrs + text).split('\n')
+        return (attrs + text + post).split('\n')
 
     def _macro_impls(self, rel):
         """R5: token-substitute the single-arm operator macros of bitboard.rs."""
